@@ -1,0 +1,10 @@
+//go:build verif
+
+package inode
+
+import "github.com/mit-pdos/go-journal/common"
+
+// VerifBlks returns the block pointers of a decoded inode.
+func (ip *Inode) VerifBlks() []common.Bnum {
+	return append([]common.Bnum{}, ip.blks...)
+}
